@@ -275,6 +275,9 @@ func (e BridgeEngine) genKind(r *Run, kind string) (Step, bool) {
 			{Kind: "gov", DtMs: 5000, A: A("what", "update_oracles", "chain", c.Name, "oracles", list(true))},
 			{Kind: "block", DtMs: 5000, N: 1, Txs: []Tx{{K: "bond", S: KeyName("oracle", xk.Idx), A: A("chain", c.Name, "o", x, "amount", FX(c.Cfg.DelegateThresholdFX).String(), "val", r.Rng.IntN(r.Cfg.World.Validators))}}},
 		}
+		if r.Pct(50) { // come back with a new bridger key: the old one is retired
+			q[6].Txs[0].A["bridger"] = KeyName("sparebridger", r.Rng.IntN(4))
+		}
 		r.Fault("membership")
 		r.Probe("rebond-cycle-scripted")
 		st.Setup = append(st.Setup, q[1:]...)
@@ -303,6 +306,10 @@ func (e BridgeEngine) genKind(r *Run, kind string) (Step, bool) {
 				continue
 			}
 			amt := or.GetSlashAmount(v.Params.SlashFraction).Add(FX(int64(1 + r.Rng.IntN(10))))
+			if r.Pct(35) && or.GetSlashAmount(v.Params.SlashFraction).IsPositive() {
+				amt = or.GetSlashAmount(v.Params.SlashFraction) // exactly the penalty, no new stake
+				r.Probe("rejoin-with-exact-penalty")
+			}
 			return blk(Tx{K: "add_delegate", S: KeyName("oracle", ok.Idx), A: A("chain", c.Name, "amount", amt.String())}), true
 		}
 		return Step{}, false
@@ -831,7 +838,22 @@ func (e BridgeEngine) genAdversary(r *Run, c *ChainSt, v *ChainView) (Step, bool
 	w := r.W
 	adv := KeyName("adv", r.Rng.IntN(2))
 	blk := func(txs ...Tx) Step { return Step{Kind: "block", DtMs: e.dt(r), N: 1, Txs: txs} }
-	switch r.Rng.IntN(5) {
+	switch r.Rng.IntN(6) {
+	case 5: // a retired bridger key (no longer the oracle's registered bridger) tries to vote
+		for i := range c.Oracles {
+			ob := c.oracleKey(w, i).Bech()
+			or, ok := v.Oracles[ob]
+			if !ok || !or.Online || or.BridgerAddress == c.bridgerKey(w, i).Bech() {
+				continue
+			}
+			next := v.EffectiveOracleNonce(ob) + 1
+			if next > c.Ext.EventNonce {
+				continue
+			}
+			r.Probe("retired-bridger-claims")
+			return blk(Tx{K: "claim", S: KeyName("bridger", c.bridgerKey(w, i).Idx), A: A("chain", c.Name, "o", i, "n", next, "retired", 1)}), true
+		}
+		return Step{}, false
 	case 0: // cancel somebody else's transfer
 		if len(v.Pool) == 0 {
 			return Step{}, false
